@@ -551,8 +551,14 @@ struct BloomObj : Obj {
   std::string extra_view(const Bytes& b) override {
     // read-only wrap of an image: a non-empty image written by serialize() is directly wrappable
     Bytes copy(b);
+    std::string note;
+    {
+      // a read-only view reproduces the memory it wraps: serialized again (before anything is asked of it) it is the same image
+      bloom_filter w0 = bloom_filter::wrap(copy.data(), copy.size());
+      if (!(to_bytes(w0.serialize()) == b)) note = " || the read-only view re-serializes to a different image";
+    }
     bloom_filter w = bloom_filter::wrap(copy.data(), copy.size());
-    std::string a = obs(w);
+    std::string a = obs(w) + note;
     if (w.is_empty()) return a;  // writable_wrap documents that it refuses an empty filter image
     bloom_filter ww = bloom_filter::writable_wrap(copy.data(), copy.size());
     std::string c = obs(ww);
